@@ -25,7 +25,7 @@ fn cfg() -> BoxedStrategy<Cfg> {
     (
         prop_oneof![3 => Just(6u8), 3 => 1u8..=6, 1 => Just(0u8)],
         prop_oneof![3 => Just(1500u16), 2 => 0u16..4],
-        prop_oneof![3 => Just(0u8), 5 => Just(1u8), 1 => Just(2u8)],
+        prop_oneof![3 => Just(0u8), 5 => Just(1u8), 1 => Just(2u8), 1 => Just(3u8)],
     )
         .prop_map(|(max_addrs_per_peer, max_peers, expiry)| Cfg { max_addrs_per_peer, max_peers, expiry })
         .boxed()
@@ -39,7 +39,9 @@ fn reader_cfg(c: &Cfg, path: &std::path::Path) -> BootstrapCacheConfig {
     match c.expiry {
         0 => cfg,
         1 => cfg.with_addr_expiry_duration(Duration::from_secs(100 * 365 * 24 * 3600)),
-        _ => cfg.with_addr_expiry_duration(Duration::ZERO),
+        2 => cfg.with_addr_expiry_duration(Duration::ZERO),
+        // "never expire"
+        _ => cfg.with_addr_expiry_duration(Duration::MAX),
     }
 }
 
@@ -138,7 +140,19 @@ fn synth_peer(strict: bool) -> BoxedStrategy<SynthPeer> {
     let (cnt, sec, nan) = if strict {
         (
             counter_valid(),
-            prop_oneof![6 => Just("1700000000".to_string()), 1 => Just("0".to_string()), 1 => Just("4102444800".to_string())].boxed(),
+            // every one of these is a value serde turns into a SystemTime: the usual ones, the epoch, far
+            // futures and the last representable seconds (i64::MAX and the day / the century before it)
+            prop_oneof![
+                6 => Just("1700000000".to_string()),
+                1 => Just("0".to_string()),
+                1 => Just("4102444800".to_string()),
+                1 => Just("253402300800".to_string()),
+                1 => Just("9223372036854775807".to_string()),
+                1 => Just("9223372036854775806".to_string()),
+                1 => Just("9223372036854689407".to_string()),
+                1 => Just("9223372036854689408".to_string()),
+                1 => Just("9223372033701175807".to_string()),
+            ].boxed(),
             prop_oneof![3 => Just("0".to_string()), 1 => Just("999999999".to_string())].boxed(),
         )
     } else {
